@@ -49,6 +49,9 @@ func c01Check(d string) (accepted bool, msg string, m1 *openfgav1.AuthorizationM
 		// as a full model, i.e. with a model/schema header, which always yields a schema version
 		return false, "", nil
 	}
+	if rel := gen.CyclicModel(m1); rel != "" {
+		return true, "the model returned by TransformDSLToProto is not a tree: the rewrite of " + rel + " contains itself", nil
+	}
 	snapshot := proto.Clone(m1)
 	// path A: the in-memory model straight into the printer
 	t1, err := transformer.TransformJSONProtoToDSL(m1)
